@@ -47,8 +47,8 @@ def g : Graph Nat where
             ⟨[1, 2], [[1, 2], [2, 5]], .landmark ⟨.r2, [1, 2]⟩ ⟨.se2, [0, 0, 0]⟩ none⟩,
             ⟨[4, 5], eye 3 1, .landmark ⟨.r3, [0, 1, 2]⟩ ⟨.se3, [1, 0, 2, 0, 0, 0, 1]⟩ (some 2)⟩]
 
-/-- an SE(2) landmark edge whose second vertex is a pose, not a point: `is_valid` accepts it, the writer emits an
-`EDGE_SE2_XY` line with the first two estimate entries and the 2×2 corner of the 3×3 information matrix -/
+/-- an SE(2) landmark edge whose second vertex is a pose, not a point: `is_valid` accepts it; the writer refuses it
+(before the repair f996508 it emitted an `EDGE_SE2_XY` line with two of the three estimate entries) -/
 def gLandmarkToPose : Graph Nat where
   params := []
   vertices := [⟨0, ⟨.se2, [0, 0, 0]⟩⟩, ⟨1, ⟨.se2, [2, 1, 1]⟩⟩]
